@@ -384,7 +384,45 @@ func c15Compose(w *World, r *Recorder, sf *types.Named) {
 		}
 	}
 	fused := breakCmp != nil && countCmp != nil
-	if !fused && (indef == nil || def == nil) {
+	// helper form: the counted loop lives in an in-package helper that
+	// FromCBOR calls with the declared length (the first result of the header
+	// reader) among its arguments; the call site is then the point at which
+	// the encoding must not be the indefinite one
+	var defCall ssa.Instruction
+	if !fused && def == nil && indef != nil {
+		for _, b := range fn.Blocks {
+			for _, in := range b.Instrs {
+				c, ok := in.(*ssa.Call)
+				if !ok {
+					continue
+				}
+				callee := c.Call.StaticCallee()
+				if callee == nil || callee == pai || callee.Blocks == nil || fnPkg(callee) != w.Enc {
+					continue
+				}
+				takesCount := false
+				for _, a := range c.Call.Args {
+					if ex, ok := stripConv(a).(*ssa.Extract); ok && ex.Index == 0 {
+						if pc, ok := ex.Tuple.(*ssa.Call); ok && pc.Call.StaticCallee() == pai {
+							takesCount = true
+						}
+					}
+				}
+				hasLoop := false
+				for _, cb := range callee.Blocks {
+					for _, p := range cb.Preds {
+						if cb.Dominates(p) {
+							hasLoop = true
+						}
+					}
+				}
+				if takesCount && hasLoop {
+					defCall = c
+				}
+			}
+		}
+	}
+	if !fused && (indef == nil || (def == nil && defCall == nil)) {
 		r.Undecide("C15-H3", "FromCBOR#loops", w.FnPos(fn), "could not identify the definite and the indefinite (break-byte) loop")
 		return
 	}
@@ -406,6 +444,8 @@ func c15Compose(w *World, r *Recorder, sf *types.Named) {
 			if in != breakCmp && in != countCmp {
 				return
 			}
+		} else if in == defCall && defCall != nil {
+			// fall through: recorded as an entry of the counted loop
 		} else if (b != indef && b != def) || in != b.Instrs[0] {
 			return
 		}
